@@ -33,6 +33,7 @@ import (
 	"github.com/dadrus/heimdall/internal/heimdall"
 	"github.com/dadrus/heimdall/internal/rules/mechanisms/contenttype"
 	"github.com/dadrus/heimdall/internal/x"
+	"github.com/dadrus/heimdall/internal/x/stringx"
 )
 
 type RequestContext struct {
@@ -138,16 +139,30 @@ func (r *RequestContext) Cookie(name string) string {
 
 func (r *RequestContext) Body() any {
 	if r.savedBody == nil {
-		decoder, err := contenttype.NewDecoder(r.Header("Content-Type"))
-		if err != nil {
-			r.savedBody = string(r.reqRawBody)
+		// depending on its configuration (pack_as_bytes), envoy sends the body either
+		// as bytes, or as string
+		rawBody := r.reqRawBody
+		if len(rawBody) == 0 {
+			rawBody = stringx.ToBytes(r.reqBody)
+		}
+
+		// as with the http based services, there is nothing to decode if there is no body
+		if len(rawBody) == 0 {
+			r.savedBody = ""
 
 			return r.savedBody
 		}
 
-		data, err := decoder.Decode(r.reqRawBody)
+		decoder, err := contenttype.NewDecoder(r.Header("Content-Type"))
 		if err != nil {
-			r.savedBody = string(r.reqRawBody)
+			r.savedBody = string(rawBody)
+
+			return r.savedBody
+		}
+
+		data, err := decoder.Decode(rawBody)
+		if err != nil {
+			r.savedBody = string(rawBody)
 
 			return r.savedBody
 		}
